@@ -62,6 +62,12 @@ def cases(rng, tier):
     for rows8, n_ in SMALL_LAWS:
         yield ("weights", {"rows": [[frac(Fraction(x, 8)) for x in r] for r in rows8], "N": frac(Fraction(n_)), "seed": rng.randrange(1 << 30),
                            "always_oracle": True})
+    # budgets at which N·w and w/(1/N) round differently in double precision (49, 98, 103, ...): the number of samples requested from the
+    # sampler is ceil of the former; nothing exact (every joint probability is below 1/N), and a mixed case
+    for n_ in (49, 98, 103, 107, 196, 197, 206, 214):
+        yield ("weights", {"rows": [[frac(Fraction(1, 8))] * 8] * 3, "N": frac(Fraction(n_)), "seed": rng.randrange(1 << 30), "always_oracle": n_ == 49})
+    yield ("weights", {"rows": [[frac(Fraction(x, 64)) for x in (40, 8, 8, 8)], [frac(Fraction(1, 8))] * 8, [frac(Fraction(1, 8))] * 8], "N": frac(Fraction(49)),
+                       "seed": rng.randrange(1 << 30)})
     for _ in range(N):
         L = rng.randint(1, 4)
         rows = []
@@ -72,7 +78,7 @@ def cases(rng, tier):
         if r < 0.15:
             Nv = None
         elif r < 0.6:
-            Nv = Fraction(rng.choice([1, 2, 3, 5, 8, 17, 64, 100, 1000, 5000, 10 ** 6]))
+            Nv = Fraction(rng.choice([1, 2, 3, 5, 8, 17, 49, 64, 100, 103, 1000, 5000, 10 ** 6]))
         else:
             Nv = Fraction(rng.randint(8, 8000), 8)
         if rng.random() < 0.04:
@@ -405,6 +411,28 @@ def oracle(kind, payload):
             return f"zero-probability map {k} included with weight {float(w)}"
     if len(res) > math.ceil(Nv):
         return f"{len(res)} entries exceed ceil(N) = {math.ceil(Nv)}"
+    # the same clause for the least favourable draws: the number of samples requested bounds the number of sampled entries; it must be
+    # ceil(N·w) with w the mass of the maps below 1/N (computed here in exact arithmetic), so that #exact + #sampled <= ceil(N)
+    if sc.calls and not payload.get("approx") and not payload.get("bases"):
+        n_exact = sum(1 for p in joint.values() if p * Nv >= 1)
+        w_tail = sum(p for p in joint.values() if p * Nv < 1)
+        asked = sc.calls[0]["size"]
+        if asked != math.ceil(w_tail * Nv):
+            msg = f"the sampler is asked for {asked} samples, ceil(N*w) = {math.ceil(w_tail * Nv)} (N = {float(Nv)}, tail mass {float(w_tail)})"
+            if n_exact == 0 and asked <= len(joint):
+                # nothing exact: every basis is sampled independently; answer the calls with pairwise different joint draws
+                digits, radix = [], [len(r) for r in rows]
+                support = [[j for j, x in enumerate(r) if x > 0] for r in rows]
+                keys = list(itertools.islice(itertools.product(*support), asked))
+                if len(keys) == asked:
+                    forced = [[k[b] for k in keys] for b in range(len(rows))]
+                    try:
+                        out2, _ = _run_weights(payload, forced)
+                        if len(out2) > math.ceil(Nv):
+                            return msg + f": with pairwise different draws the result has {len(out2)} entries > ceil(N) = {math.ceil(Nv)}"
+                    except Exception:
+                        pass
+            return msg
     dropped = sum(p for p in joint.values() if p <= ATOL * 4)
     total = sum(w for w, _ in res.values())
     if abs(total - Nv) > Fraction(1, 10 ** 12) * Nv + Nv * dropped * 2 + Nv * len(joint) * ATOL * 2:
